@@ -40,6 +40,24 @@ Section Spec.
 
   Definition spec (x : input cert msg sig) (out : bool * list cert) : Prop := sound x out /\ complete x out.
 
+  (* ---- a message with several signed elements (a signed Response around a signed Assertion): the message
+     is accepted only if EVERY signature it carries was made by a key trusted for the issuer named in the
+     element it signs -- one good signature never covers for another --, and per element the verifier is only
+     ever handed certificates trusted for that element.  Completeness: when all signed elements name one issuer
+     and each signature was made by a key that issuer publishes for signing, the message is accepted. ---- *)
+  Definition msg_sound (xs : list (input cert msg sig)) (out : mout cert) : Prop :=
+    Forall2 (fun x h => forall c, In c h -> trusted_for x c) xs (snd out)
+    /\ (fst out = true -> forall x, In x xs ->
+          (exists k, made_by x k) /\ (forall k, made_by x k -> trusted_for x (cert_of k))).
+
+  Definition msg_complete (xs : list (input cert msg sig)) (out : mout cert) : Prop :=
+    (exists e, forall x, In x xs ->
+       exists k, made_by x k /\ claimed x = Some e /\ published_for_signing (md x) e (cert_of k)) ->
+    fst out = true.
+
+  Definition msg_spec (xs : list (input cert msg sig)) (out : mout cert) : Prop :=
+    msg_sound xs out /\ msg_complete xs out.
+
   (* ---- a long-lived receiver: "the loaded metadata" is the set loaded by the last successful
      (re)load before the message is verified; P is the per-message requirement ---- *)
   Definition loaded (init : metadata cert) (pre : list (op cert msg sig)) : metadata cert :=
@@ -48,11 +66,11 @@ Section Spec.
   Definition is_check (o : op cert msg sig) : bool := match o with Check _ => true | _ => false end.
   Definition nchecks (l : list (op cert msg sig)) : nat := length (filter is_check l).
 
-  Definition seq_spec (P : input cert msg sig -> bool * list cert -> Prop)
-    (init : metadata cert) (only : bool) (ops : list (op cert msg sig)) (outs : list (bool * list cert)) : Prop :=
+  Definition seq_spec (P : list (input cert msg sig) -> mout cert -> Prop)
+    (init : metadata cert) (only : bool) (ops : list (op cert msg sig)) (outs : list (mout cert)) : Prop :=
     length outs = nchecks ops
-    /\ forall pre q post, ops = (pre ++ Check q :: post)%list ->
-         exists o, nth_error outs (nchecks pre) = Some o /\ P (at_md (loaded init pre) only q) o.
+    /\ forall pre qs post, ops = (pre ++ Check qs :: post)%list ->
+         exists o, nth_error outs (nchecks pre) = Some o /\ P (map (at_md (loaded init pre) only) qs) o.
 End Spec.
 
 Arguments published_for_signing {cert}.
@@ -62,6 +80,9 @@ Arguments made_by {key cert msg sig}.
 Arguments sound {key cert msg sig}.
 Arguments complete {key cert msg sig}.
 Arguments spec {key cert msg sig}.
+Arguments msg_sound {key cert msg sig}.
+Arguments msg_complete {key cert msg sig}.
+Arguments msg_spec {key cert msg sig}.
 Arguments loaded {cert msg sig}.
 Arguments is_check {cert msg sig}.
 Arguments nchecks {cert msg sig}.
